@@ -524,3 +524,14 @@ Example C10_guards_example :
   an_doc_tidy (NSet (ct 2 None) [lf 3 (Some "x") (PInt 1)]) = false /\
   keys_plain ex2_l = true /\ keys_plain ex2_r = true.
 Proof. repeat split; vm_compute; reflexivity. Qed.
+
+(* Every remaining statement of this file, so that none is left unaudited. *)
+Print Assumptions C10_equal_right_untouched.
+Print Assumptions C10_rename_new_name.
+Print Assumptions C10_replace_is_subst.
+Print Assumptions C10_anchored_array_element_unseen_refuted.
+Print Assumptions C10_tidy_bridge.
+Print Assumptions C10_one_node_reads.
+Print Assumptions C10_no_crash_refuted.
+Print Assumptions C10_anchored_container_element_refuted.
+Print Assumptions C10_anchored_key_collision_refuted.
